@@ -91,6 +91,44 @@ let handle = function
   | L [A "eval"; e; L bvs; L bools] -> value_sexp (eval (env_of bvs bools) (expr_of e))
   | L [A "evalop"; A op; L ints; L vals] -> value_sexp (eval_op (op_of_string op) (List.map z_a ints) (List.map value_of vals))
   | L (A "bv" :: A name :: args) -> bvfn name args
+  | L [A "enum"; L exprs; L bvvars; L boolvars] ->
+    (* all assignments of the given variables (id width) / Boolean ids; for each, the values of exprs *)
+    let es = List.map expr_of exprs in
+    let bvs = List.map (function L [n; w] -> (string_of_cz (z_a n), int_of_string (string_of_cz (z_a w))) | _ -> failwith "enum") bvvars in
+    let bools = List.map (fun n -> string_of_cz (z_a n)) boolvars in
+    let bt = Hashtbl.create 16 and ot = Hashtbl.create 16 in
+    let env = { bvenv = (fun n -> try Hashtbl.find bt (string_of_cz n) with Not_found -> Z0);
+                boolenv = (fun n -> try Hashtbl.find ot (string_of_cz n) with Not_found -> false) } in
+    let out = Buffer.create 65536 in
+    let rec go_b = function
+      | [] ->
+        List.iter (fun e ->
+          (match eval env e with
+           | Some (VBV (_, v)) -> Buffer.add_string out (string_of_cz v)
+           | Some (VBool b) -> Buffer.add_string out (if b then "T" else "F")
+           | None -> Buffer.add_string out "N");
+          Buffer.add_char out ' ') es;
+        Buffer.add_char out ';'
+      | n :: r -> Hashtbl.replace ot n false; go_b r; Hashtbl.replace ot n true; go_b r in
+    let rec go = function
+      | [] -> go_b bools
+      | (n, w) :: r ->
+        for v = 0 to (1 lsl w) - 1 do
+          Hashtbl.replace bt n (cz_of_zz (ZZ.of_int v)); go r
+        done in
+    go bvs;
+    A (Buffer.contents out)
+  | L [A "extrema"; A is_max; lo; hi; L feas] ->
+    (* the model of BackendZ3._extrema against the oracle "some feasible value lies in [a,b]" *)
+    let fs = List.map (fun x -> zz_of_cz (z_a x)) feas in
+    let probe a b = let a = zz_of_cz a and b = zz_of_cz b in List.exists (fun v -> ZZ.leq a v && ZZ.leq v b) fs in
+    let (r, k) = extrema probe (is_max = "1") (z_a lo) (z_a hi) in
+    L [a_z r; A (string_of_int (int_of_nat k))]
+  | L [A "enumerate"; A n; L order] ->
+    (* the model of _batch_eval against an oracle returning the first value of [order] not yet blocked *)
+    let vs = List.map (fun x -> string_of_cz (z_a x)) order in
+    let pick blocked = (try Some (List.find (fun v -> not (List.mem v blocked)) vs) with Not_found -> None) in
+    L (List.map (fun v -> A v) (enumerate pick (nat_of_int (int_of_string n)) []))
   | L [A "meta"; e] ->
     let x = expr_of e in
     L [A (if symbolic x then "1" else "0"); A (string_of_int (int_of_nat (depth x))); a_z (elen x)]
